@@ -2,10 +2,11 @@
    Only ExtrOcamlBasic is used: nat, N, Z, positive stay Coq's inductive datatypes. *)
 From Coq Require Import Extraction ExtrOcamlBasic.
 From Ais Require Import Model.Base Model.Enums Model.Fields Model.Messages Model.Unarmor
-  Model.Sentence Model.Canon Model.F32Eval Model.NomBits.
+  Model.Sentence Model.Canon Model.F32Eval Model.NomBits Model.NomBytes.
 Extraction Language OCaml.
 Extraction "model.ml"
   cfg quirks quirks_asis quirks_off
   unarmor msg_parse step run p_init cli
   t_step t_unarmor t_msg t_state t_conv t_shiptype t_cli
-  fbits N.of_nat N.to_nat Z.of_N nom_take.
+  fbits N.of_nat N.to_nat Z.of_N nom_take
+  parse_u8_digit_lib hex_u32_nom from_str_u8.
